@@ -6,6 +6,7 @@ import TmVerif.Driver.MapperCmd
 import TmVerif.Driver.LoopCmd
 import TmVerif.Driver.BytesCmd
 import TmVerif.Driver.EscapeCmd
+import TmVerif.Driver.ListingCmd
 
 open TmVerif TmVerif.Proto
 
@@ -30,6 +31,9 @@ def handleLine (st : DriverState) (line : String) : DriverState × String :=
     | some r => (st, r)
     | none =>
     match EscapeCmd.handle toks with
+    | some r => (st, r)
+    | none =>
+    match ListingCmd.handle toks with
     | some r => (st, r)
     | none => (st, "bad-request")
 
